@@ -350,10 +350,12 @@ def run(ctx):
         replay_vectors(ctx, r.vectors, seen, nontrivial, label)
         r.vectors, r.stdout = [], ""
     if not quick:
-        # 5 nodes: random walks through Build and the rest of the machine (invariants checked, cases emitted)
-        r = ctx.gen("mc/MC_TypeGraph", "gen/Gen_TypeGraph.cfg", simulate=400, depth=40, label="simulate N<=5",
+        # 5 nodes: random walks through Build and the rest of the machine (invariants checked, cases emitted).
+        # TLC evaluates Emit on every successor it draws from, so one walk in dup mode yields every one-step
+        # and (along the drawn step) every two-step script of its graph.
+        r = ctx.gen("mc/MC_TypeGraph", "gen/Gen_TypeGraph.cfg", simulate=150, depth=40, label="simulate N<=5",
                     consts=dict(N=5, K=3, Leaves='{"string", "int"}', UKinds='{"user", "result"}', Modes='{"hash", "dup"}', Decos="{0, 1, 3}",
-                                MaxSteps=5, Script='"free"'), timeout=3000)
+                                MaxSteps=2, Script='"free"'), timeout=3000)
         replay_vectors(ctx, r.vectors, seen, nontrivial, "simulate")
         r.vectors, r.stdout = [], ""
     del seen
